@@ -116,6 +116,9 @@ func c13Run(ctx *core.Ctx) {
 						calls = append(calls, c13Call{Addr: a, Nil: (idx+k)%5 == 0})
 					}
 					emit(c13Case{Rcpts: rc, Calls: calls, Timing: "before", RetErr: true, Transfer: transfer, Backend: "lmtp"})
+					// ... or it returns nil at that point: the recipients it set no status for get its
+					// return value, success, like everywhere else
+					emit(c13Case{Rcpts: rc, Calls: calls, Timing: "before", RetErr: false, Transfer: transfer, Backend: "lmtp"})
 				}
 				// panics (per-recipient backend)
 				for pi, pn := range []string{"first", "aftercalls", "toooften", "unknown", "late"} {
